@@ -377,6 +377,9 @@ def primRel : Prim → TPrim → Bool
   | .expandafter, .expandafter => true
   | .newcommand, .newcommand => true
   | .newcommand, .renewcommand => true
+  | .ifx, .ifx => true
+  | .inert, .else_ => true
+  | .inert, .fi => true
   | _, _ => false
 
 /-- a model meaning and a TeX meaning that denote the same thing -/
@@ -1460,6 +1463,361 @@ theorem notEa_of_good {fx : Bool} {env : Env} {t : Table} (g : Good fx env t) (n
     (h : t.lookup n = some m) : fx = false → m ≠ .prim .expandafter := by
   intro hf e; subst e; exact g.noea hf n h
 
+/-! ### `\ifx` inside NF-prog 4: the model's comparison is TeX's -/
+
+def itemTok : BItem → Tok
+  | .tok t => t
+  | _ => .ch 12 0
+
+theorem renderBody_plain : ∀ (b : List BItem), b.all plainItem = true →
+    renderBody b = b.map itemTok ∧ (b.map itemTok).all plainChar = true := by
+  intro b
+  induction b with
+  | nil => intro _; exact ⟨rfl, rfl⟩
+  | cons it rest ih =>
+    intro h
+    simp only [List.all_cons, Bool.and_eq_true] at h
+    obtain ⟨e1, e2⟩ := ih h.2
+    cases it with
+    | tok t =>
+      have hp : plainChar t = true := by
+        cases t with
+        | ch cat c =>
+          have := h.1
+          unfold plainItem at this
+          split at this <;> simp_all [plainChar]
+        | cs n => simp [plainItem] at h
+        | el n => simp [plainItem] at h
+      refine ⟨?_, ?_⟩
+      · simp only [renderBody, List.flatMap_cons, renderItem, List.map_cons, itemTok] at e1 ⊢
+        rw [e1]; rfl
+      · simp [itemTok, hp, e2]
+    | par k => simp [plainItem] at h
+    | hash c => simp [plainItem] at h
+
+theorem itemTok_inj : ∀ (a b : List BItem), a.all plainItem = true → b.all plainItem = true →
+    a.map itemTok = b.map itemTok → a = b := by
+  intro a
+  induction a with
+  | nil => intro b _ _ h; cases b with | nil => rfl | cons y ys => simp at h
+  | cons x xs ih =>
+    intro b ha hb h
+    cases b with
+    | nil => simp at h
+    | cons y ys =>
+      simp only [List.all_cons, Bool.and_eq_true] at ha hb
+      simp only [List.map_cons, List.cons.injEq] at h
+      have hxy : x = y := by
+        cases x <;> cases y <;> simp_all [plainItem, itemTok]
+      rw [hxy, ih ys ha.2 hb.2 h.2]
+
+theorem ifValEq_ifValOf (a b : List Tok) : ifValEq (ifValOf a) (ifValOf b) = (a == b) := by
+  match a, b with
+  | [], [] => rfl
+  | [], [y] => rfl
+  | [], y :: z :: w => rfl
+  | [x], [] => rfl
+  | [x], [y] => simp [ifValOf, ifValEq]
+  | [x], y :: z :: w => simp [ifValOf, ifValEq]
+  | x :: x' :: xs, [] => rfl
+  | x :: x' :: xs, [y] => simp [ifValOf, ifValEq]
+  | x :: x' :: xs, y :: z :: w => simp [ifValOf, ifValEq]
+
+theorem ifxKind_mac (tbl : Table) (t : Tok) (body : List BItem) (h : ifxKind tbl t = some (.mac body)) :
+    ∃ n pt, t = .cs n ∧ tbl.lookup n = some (.macro pt body) ∧ pt.pre = [] ∧ pt.params = [] ∧ body.all plainItem = true := by
+  cases t with
+  | el n => simp [ifxKind] at h
+  | ch cat c => simp only [ifxKind] at h; split at h <;> simp at h
+  | cs n =>
+    simp only [ifxKind] at h
+    cases hl : List.lookup n tbl with
+    | none => simp [hl] at h
+    | some m =>
+      cases m with
+      | prim q => simp [hl] at h
+      | latex a b c => simp [hl] at h
+      | «macro» pt body' =>
+        simp only [hl] at h
+        cases hc : (pt.pre.isEmpty && pt.params.isEmpty && body'.all plainItem) with
+        | false => simp [hc] at h
+        | true =>
+          simp only [hc, if_true, Option.some.injEq, IfxKind.mac.injEq] at h
+          subst h
+          simp only [Bool.and_eq_true, List.isEmpty_iff] at hc
+          exact ⟨n, pt, rfl, hl, hc.1.1, hc.1.2, hc.2⟩
+
+theorem ifxKind_char (tbl : Table) (t : Tok) (cat c : Nat) (h : ifxKind tbl t = some (.char cat c)) :
+    t = .ch cat c ∧ (cat = 11 ∨ cat = 12) := by
+  cases t with
+  | el n => simp [ifxKind] at h
+  | ch a b =>
+    simp only [ifxKind] at h
+    by_cases hc : a = 11 ∨ a = 12
+    · simp only [hc, if_true, Option.some.injEq, IfxKind.char.injEq] at h
+      obtain ⟨rfl, rfl⟩ := h; exact ⟨rfl, hc⟩
+    · simp [hc] at h
+  | cs n =>
+    simp only [ifxKind] at h
+    split at h
+    · split at h <;> simp at h
+    · simp at h
+
+/-- one operand of `\ifx`, a character: the `XTok` reader of the code returns the token itself -/
+theorem xtok_of_char (env : Env) (tbl : Table) (t : Tok) (cat c : Nat) (h : ifxKind tbl t = some (.char cat c)) :
+    xtokOfTok env t = .ok (.tok (.ch cat c)) := by
+  obtain ⟨rfl, hc⟩ := ifxKind_char tbl t cat c h
+  simp [xtokOfTok, hc]
+
+/-- one operand of `\ifx`, a plain-text macro: the reader returns its text (one token, or the fragment of its tokens) -/
+theorem xtok_of_mac (fx : Bool) (env : Env) (tbl : Table) (hg : Good fx env tbl) (t : Tok) (body : List BItem)
+    (h : ifxKind tbl t = some (.mac body)) :
+    xtokOfTok env t = .ok (ifValOf (body.map itemTok)) := by
+  obtain ⟨n, pt, rfl, hl, hp1, hp2, hb⟩ := ifxKind_mac tbl t body h
+  have hnr := good_defined hg n _ hl
+  have hrn := hg.rel n hnr
+  rw [hl] at hrn
+  obtain ⟨hlm, _⟩ := mrel_macro hrn
+  obtain ⟨r1, r2⟩ := renderBody_plain body hb
+  have hpt : renderPText pt = [] := by simp [renderPText, hp1, hp2, renderParams]
+  simp [xtokOfTok, hlm, hpt, r1, r2]
+
+/-- **`\ifx` compares as TeX does (NF-prog 4).**  For two operands that TeX classifies as two character tokens or as two
+    macros without parameters and with plain-text replacement texts (`ifxKind`), the values the code's `XTok` reader
+    computes compare equal (`ifValEq`: tokens by category and character, fragments child by child AND by length) exactly
+    when TeX says the two tokens agree. -/
+theorem ifx_compare_is_tex (fx : Bool) (env : Env) (tbl : Table) (hg : Good fx env tbl) (t1 t2 : Tok) (k1 k2 : IfxKind) (b : Bool)
+    (h1 : ifxKind tbl t1 = some k1) (h2 : ifxKind tbl t2 = some k2) (hb : ifxAgree k1 k2 = some b) :
+    ∃ v1 v2, xtokOfTok env t1 = .ok v1 ∧ xtokOfTok env t2 = .ok v2 ∧ ifValEq v1 v2 = b := by
+  cases k1 with
+  | char a c =>
+    cases k2 with
+    | char a' c' =>
+      simp only [ifxAgree, Option.some.injEq] at hb
+      refine ⟨_, _, xtok_of_char env tbl t1 a c h1, xtok_of_char env tbl t2 a' c' h2, ?_⟩
+      subst hb
+      by_cases ha : a = a'
+      · by_cases hc : c = c'
+        · subst ha; subst hc; simp [ifValEq]
+        · simp [ifValEq, ha, hc]
+      · simp [ifValEq, ha]
+    | mac y => simp [ifxAgree] at hb
+  | mac x =>
+    cases k2 with
+    | char a' c' => simp [ifxAgree] at hb
+    | mac y =>
+      simp only [ifxAgree, Option.some.injEq] at hb
+      refine ⟨_, _, xtok_of_mac fx env tbl hg t1 x h1, xtok_of_mac fx env tbl hg t2 y h2, ?_⟩
+      rw [ifValEq_ifValOf]
+      subst hb
+      obtain ⟨_, _, _, _, _, _, hx⟩ := ifxKind_mac tbl t1 x h1
+      obtain ⟨_, _, _, _, _, _, hy⟩ := ifxKind_mac tbl t2 y h2
+      by_cases hxy : x = y
+      · subst hxy; simp
+      · have : x.map itemTok ≠ y.map itemTok := fun e => hxy (itemTok_inj x y hx hy e)
+        simp [hxy, this]
+
+/-! ### branch selection: `processIfContent` against TeX's skipping -/
+
+/-- the name-based classification of the code agrees with TeX's meaning-based one on this token -/
+def condAgree (tbl : Table) (t : Tok) : Bool :=
+  match nameKind t, texCondKind tbl t with
+  | .opens, .opens => true
+  | .closes, .closes => true
+  | .alt, .alt => true
+  | .other, .other => true
+  | _, _ => false
+
+theorem nameStartsIf_eq (n : Name) : nameStartsIf n = startsWithIf n := by
+  unfold nameStartsIf startsWithIf; split <;> simp_all
+
+theorem condAgree_of_ok (tbl : Table) (t : Tok) (h : condNamesOk tbl t = true) : condAgree tbl t = true := by
+  have hk : texCondKind tbl t = .other ∨ ∃ n, t = .cs n := by
+    cases t with
+    | cs n => exact Or.inr ⟨n, rfl⟩
+    | ch a b => exact Or.inl rfl
+    | el n => exact Or.inl rfl
+  cases t with
+  | ch a b =>
+    -- a character: no name on the Spec side; `bgroup`/`egroup` on the model side, never conditional
+    have : nameKind (.ch a b) = .other := by
+      unfold nameKind anyMacroName
+      split <;> simp_all [startsWithIf]
+    simp [condAgree, this, texCondKind]
+  | cs n =>
+    simp only [condNamesOk, condName, nameStartsIf_eq] at h
+    unfold condAgree nameKind
+    simp only [anyMacroName]
+    by_cases h1 : n = [110, 101, 119, 105, 102] ∨ n = [111, 114]
+    · simp [h1] at h
+    · simp only [h1, if_false] at h
+      simp only [not_or] at h1
+      by_cases h2 : startsWithIf n = true
+      · simp only [h2, if_true, beq_iff_eq] at h; simp [h1.1, h2, h]
+      · simp only [h2, Bool.false_eq_true, if_false] at h
+        by_cases h3 : n = [102, 105]
+        · simp only [h3, if_true, beq_iff_eq] at h; subst h3; simp [startsWithIf, h]
+        · simp only [h3, if_false] at h
+          by_cases h4 : n = [101, 108, 115, 101]
+          · simp only [h4, if_true, beq_iff_eq] at h; subst h4; simp [startsWithIf, h]
+          · simp only [h4, if_false, beq_iff_eq] at h
+            simp [h1.1, h1.2, h2, h3, h4, h]
+  | el n =>
+    simp only [condNamesOk, condName, nameStartsIf_eq, texCondKind] at h
+    unfold condAgree nameKind
+    simp only [anyMacroName, texCondKind]
+    by_cases h1 : n = [110, 101, 119, 105, 102] ∨ n = [111, 114]
+    · simp [h1] at h
+    · simp only [h1, if_false] at h
+      simp only [not_or] at h1
+      by_cases h2 : startsWithIf n = true
+      · simp [h2] at h
+      · simp only [h2, Bool.false_eq_true, if_false] at h
+        by_cases h3 : n = [102, 105]
+        · simp [h3] at h
+        · simp only [h3, if_false] at h
+          by_cases h4 : n = [101, 108, 115, 101]
+          · simp [h4] at h
+          · simp [h1.1, h1.2, h2, h3, h4]
+
+theorem ifScan_nil (nest : Nat) (cur : List Tok) (done : List (List Tok)) :
+    ifScan nest cur done [] = ((cur.reverse :: done).reverse, []) := by simp [ifScan]
+
+/-- one step of the scan on a token that is not `\newif` -/
+theorem ifScan_step (nest : Nat) (cur : List Tok) (done : List (List Tok)) (t : Tok) (L : List Tok)
+    (h : nameKind t ≠ .newif) :
+    ifScan nest cur done (t :: L) =
+      match nameKind t with
+      | .newif => ([], [])
+      | .opens => ifScan (nest + 1) (t :: cur) done L
+      | .closes => if nest = 0 then ((cur.reverse :: done).reverse, L) else ifScan (nest - 1) (t :: cur) done L
+      | .alt => if nest = 0 then ifScan 0 [] (cur.reverse :: done) L else ifScan nest (t :: cur) done L
+      | .other => ifScan nest (t :: cur) done L := by
+  cases L with
+  | nil =>
+    cases hk : nameKind t <;> simp [ifScan, hk] at h ⊢
+    all_goals (try split) <;> simp [ifScan]
+  | cons u us =>
+    cases hk : nameKind t <;> simp [ifScan, hk] at h ⊢
+
+/-- the accumulators of the two scans describe the same state -/
+def AccRel (seenElse : Bool) (tb fb cur : List Tok) (done : List (List Tok)) : Prop :=
+  (seenElse = false ∧ done = [] ∧ cur.reverse = tb ∧ fb = []) ∨ (seenElse = true ∧ done = [tb] ∧ cur.reverse = fb)
+
+theorem branches_sim (tbl : Table) : ∀ (r : List Tok) (nest : Nat) (seenElse : Bool) (tb fb cur : List Tok)
+    (done : List (List Tok)) (tb' fb' after : List Tok),
+    AccRel seenElse tb fb cur done →
+    texBranches tbl nest seenElse tb fb r = some (tb', fb', after) →
+    ∃ cases, ifScan nest cur done r = (cases, after) ∧ ifChoose cases true = tb' ∧ ifChoose cases false = fb' := by
+  intro r
+  induction r with
+  | nil => intro nest se tb fb cur done tb' fb' after _ h; simp [texBranches] at h
+  | cons t ts ih =>
+    intro nest se tb fb cur done tb' fb' after hacc h
+    -- the accumulators after keeping `t`
+    have hkeep : AccRel se (if se then tb else tb ++ [t]) (if se then fb ++ [t] else fb) (t :: cur) done := by
+      rcases hacc with ⟨rfl, hd, hc, hf⟩ | ⟨rfl, hd, hc⟩
+      · left; simp [hd, hc, hf]
+      · right; simp [hd, hc]
+    unfold texBranches at h
+    simp only at h
+    have hok : condNamesOk tbl t = true := by
+      cases hc : condNamesOk tbl t with
+      | true => rfl
+      | false => simp [hc] at h
+    simp only [hok, Bool.not_true, Bool.false_eq_true, if_false] at h
+    have ht := condAgree_of_ok tbl t hok
+    unfold condAgree at ht
+    cases hk : texCondKind tbl t <;> cases hn : nameKind t <;> simp [hk, hn] at ht
+    all_goals simp only [hk] at h
+    · -- opens
+      rw [ifScan_step nest cur done t ts (by rw [hn]; decide), hn]
+      exact ih (nest + 1) se _ _ (t :: cur) done tb' fb' after hkeep h
+    · -- closes
+      rw [ifScan_step nest cur done t ts (by rw [hn]; decide), hn]
+      cases nest with
+      | zero =>
+        simp only at h
+        simp only [Option.some.injEq, Prod.mk.injEq] at h
+        obtain ⟨rfl, rfl, rfl⟩ := h
+        refine ⟨(cur.reverse :: done).reverse, by simp, ?_, ?_⟩
+        · rcases hacc with ⟨_, hd, hc, _⟩ | ⟨_, hd, hc⟩
+          · simp [ifChoose, hd, hc]
+          · simp [ifChoose, hd]
+        · rcases hacc with ⟨_, hd, hc, hf⟩ | ⟨_, hd, hc⟩
+          · simp [ifChoose, hd, hf]
+          · simp [ifChoose, hd, hc]
+      | succ k =>
+        simp only at h
+        simp only [Nat.add_one_ne_zero, if_false, Nat.add_sub_cancel]
+        exact ih k se _ _ (t :: cur) done tb' fb' after hkeep h
+    · -- alt
+      rw [ifScan_step nest cur done t ts (by rw [hn]; decide), hn]
+      cases nest with
+      | zero =>
+        simp only at h
+        cases se with
+        | true => simp at h
+        | false =>
+          simp only [Bool.false_eq_true, if_false] at h
+          simp only [if_true]
+          rcases hacc with ⟨_, hd, hc, hf⟩ | ⟨hse, _, _⟩
+          · exact ih 0 true tb fb [] (cur.reverse :: done) tb' fb' after
+              (Or.inr ⟨rfl, by simp [hd, hc], by simp [hf]⟩) h
+          · cases hse
+      | succ k =>
+        simp only at h
+        simp only [Nat.add_one_ne_zero, if_false]
+        exact ih (k + 1) se _ _ (t :: cur) done tb' fb' after hkeep h
+    · -- other
+      rw [ifScan_step nest cur done t ts (by rw [hn]; decide), hn]
+      exact ih nest se _ _ (t :: cur) done tb' fb' after hkeep h
+
+/-- **branch selection**: wherever TeX's skipping is defined inside NF-prog 6 (`texBranches`, which checks name against meaning
+    token by token), `processIfContent` selects TeX's branches and stops where TeX stops -/
+theorem ifScan_is_texBranches (tbl : Table) (r tb fb after : List Tok)
+    (h : texBranches tbl 0 false [] [] r = some (tb, fb, after)) (b : Bool) :
+    ifChoose (ifScan 0 [] [] r).1 b ++ (ifScan 0 [] [] r).2 = (if b then tb else fb) ++ after := by
+  obtain ⟨cases, hs, h1, h2⟩ := branches_sim tbl r 0 false [] [] [] [] tb fb after (Or.inl ⟨rfl, rfl, rfl, rfl⟩) h
+  rw [hs]
+  cases b <;> simp [h1, h2]
+
+theorem readXTok_of_kind (fx : Bool) (env : Env) (tbl : Table) (hg : Good fx env tbl) (t : Tok) (k : IfxKind)
+    (rest : List Tok) (h : ifxKind tbl t = some k) :
+    ∃ v, xtokOfTok env t = .ok v ∧ readXTok env (t :: rest) = .ok (v, rest) := by
+  have hv : ∃ v, xtokOfTok env t = .ok v := by
+    cases k with
+    | char a c => exact ⟨_, xtok_of_char env tbl t a c h⟩
+    | mac body => exact ⟨_, xtok_of_mac fx env tbl hg t body h⟩
+  obtain ⟨v, hv⟩ := hv
+  refine ⟨v, hv, ?_⟩
+  have hshape : t.isSpace = false ∧ t.isBg = false := by
+    cases k with
+    | char a c =>
+      obtain ⟨rfl, hc⟩ := ifxKind_char tbl t a c h
+      rcases hc with rfl | rfl <;> exact ⟨rfl, rfl⟩
+    | mac body =>
+      obtain ⟨n, pt, rfl, _⟩ := ifxKind_mac tbl t body h
+      exact ⟨rfl, rfl⟩
+  simp [readXTok, dropSpaces, hshape.1, hshape.2, hv, Except.map]
+
+/-- **one `\ifx` in the model = one `\ifx` of TeX (NF-prog 4 and 6)**: with operands TeX classifies as two characters or two
+    plain-text macros, and a conditional text on which names and meanings agree, the loop continues exactly on the branch
+    TeX selects followed by what follows the matching `\fi` -/
+theorem ifx_step (fx : Bool) (G : Nat) (name nm : Name) (t1 t2 : Tok) (r tb fb after : List Tok) (env : Env) (tbl : Table)
+    (hg : Good fx env tbl) (hl : lookup name env = some (.prim .ifx nm)) (k1 k2 : IfxKind) (b : Bool)
+    (h1 : ifxKind tbl t1 = some k1) (h2 : ifxKind tbl t2 = some k2) (hb : ifxAgree k1 k2 = some b)
+    (hbr : texBranches tbl 0 false [] [] r = some (tb, fb, after)) :
+    invoke fx (G + 1) name (t1 :: t2 :: r) env = next fx G ⟨(if b then tb else fb) ++ after, env⟩ := by
+  obtain ⟨v1, v2, e1, e2, heq⟩ := ifx_compare_is_tex fx env tbl hg t1 t2 k1 k2 b h1 h2 hb
+  obtain ⟨w1, f1, g1⟩ := readXTok_of_kind fx env tbl hg t1 k1 (t2 :: r) h1
+  obtain ⟨w2, f2, g2⟩ := readXTok_of_kind fx env tbl hg t2 k2 r h2
+  have hw1 : w1 = v1 := by rw [e1] at f1; cases f1; rfl
+  have hw2 : w2 = v2 := by rw [e2] at f2; cases f2; rfl
+  subst hw1; subst hw2
+  conv => lhs; unfold invoke
+  simp only [getItem, hl, g1, g2, heq, ifScan_is_texBranches tbl r tb fb after hbr b]
+
+
 /-- **simulation**: every successful run of the TeX evaluator inside `fragOk` is reproduced by the model
     (`fx = false`, the code as is, as long as `\\expandafter` is not among the known primitives: known finding D49) -/
 theorem sim (fx : Bool) : ∀ (fuel : Nat) (st : TSt) (v : List Nat), texRun fragOk fuel st = .ok v →
@@ -1568,6 +1926,39 @@ theorem sim (fx : Bool) : ∀ (fuel : Nat) (st : TSt) (v : List Nat), texRun fra
             case csname.csname => exact viaExpand h
             case expandafter.expandafter => exact viaExpand h
             case endcsname.endcsname => simp at h
+            case else_.inert => simp at h
+            case fi.inert => simp at h
+            case ifx.ifx =>
+              simp only at h
+              cases rest with
+              | nil => simp at h
+              | cons t1 rest1 =>
+                cases rest1 with
+                | nil => simp at h
+                | cons t2 r =>
+                  simp only at h
+                  cases hk1 : ifxKind cur t1 with
+                  | none => simp [hk1] at h
+                  | some k1 =>
+                    cases hk2 : ifxKind cur t2 with
+                    | none => simp [hk1, hk2] at h
+                    | some k2 =>
+                      simp only [hk1, hk2] at h
+                      cases hag : ifxAgree k1 k2 with
+                      | none => simp [hag] at h
+                      | some b =>
+                        cases hbr : texBranches cur 0 false [] [] r with
+                        | none => simp [hag, hbr] at h
+                        | some res =>
+                          obtain ⟨tb, fb, after⟩ := res
+                          simp only [hag, hbr] at h
+                          obtain ⟨F, hF⟩ := ih ⟨(if b then tb else fb) ++ after, cur, saved⟩ v h (f :: fs) hrel
+                          refine run_transfer fx ⟨.cs n :: t1 :: t2 :: r, f :: fs⟩ ⟨(if b then tb else fb) ++ after, f :: fs⟩
+                            (fun G x hx => ⟨G + 2, ?_⟩) F v hF
+                          conv => lhs; unfold next
+                          simp only [hnb, hmn]
+                          rw [ifx_step fx G n nmP t1 t2 r tb fb after (f :: fs) cur hgood hlm k1 k2 b hk1 hk2 hag hbr]
+                          exact hx
             case def_.def_ =>
               simp only at h
               cases hd : texReadDef rest with
@@ -1819,9 +2210,9 @@ def fragEnv : Env := [envOf fragPairs ++ braceFrame]
 theorem envRel_frag (fx : Bool) : EnvRel fx fragEnv [fragTable] :=
   ⟨good_of_tables fx _ fragTable (by decide) (by decide) (by decide) (by decide) (by decide) (fun _ => by decide), trivial⟩
 
-/-- the whole macro language: the model's initial frame against the Spec's primitive table (repaired variant of D49) -/
-theorem envRel_language : EnvRel true initEnv [primTable] :=
-  ⟨good_of_tables true prims primTable (by decide) (by decide) (by decide) (by decide) (by decide) (fun h => by cases h), trivial⟩
+/-- the whole macro language with `\ifx`: the model's initial frame against the Spec's table `condTable` (repaired variant of D49) -/
+theorem envRel_language : EnvRel true initEnv [condTable] :=
+  ⟨good_of_tables true prims condTable (by decide) (by decide) (by decide) (by decide) (by decide) (fun h => by cases h), trivial⟩
 
 /-- everything but `\expandafter`: (name, model primitive, TeX primitive) -/
 def noEAPairs : List (Name × Prim × TPrim) :=
@@ -1848,8 +2239,8 @@ theorem run_of_texRun_noEA (fx : Bool) (fuel : Nat) (p : List Tok) (v : List Nat
 
 /-- the whole macro language from the model's own initial frame: repaired variant of D49 -/
 theorem run_of_texRun_language (fuel : Nat) (p : List Tok) (v : List Nat)
-    (h : texRun fragOk fuel ⟨p, primTable, []⟩ = .ok v) : ∃ F, run true F ⟨p, initEnv⟩ = .ok v :=
-  sim true fuel ⟨p, primTable, []⟩ v h initEnv envRel_language
+    (h : texRun fragOk fuel ⟨p, condTable, []⟩ = .ok v) : ∃ F, run true F ⟨p, initEnv⟩ = .ok v :=
+  sim true fuel ⟨p, condTable, []⟩ v h initEnv envRel_language
 
 /-! ### a run under a stricter filter is a run under a weaker one -/
 
@@ -2025,158 +2416,5 @@ theorem texRun_weaken (ok1 ok2 : Name → TMeaning → Bool) (hok : ∀ n m, ok1
                     · simp only [hk, hok nm m' hk, if_true] at h ⊢; exact ih _ _ h
                     · simp [hk] at h
 
-
-/-! ### `\ifx` inside NF-prog 4: the model's comparison is TeX's -/
-
-def itemTok : BItem → Tok
-  | .tok t => t
-  | _ => .ch 12 0
-
-theorem renderBody_plain : ∀ (b : List BItem), b.all plainItem = true →
-    renderBody b = b.map itemTok ∧ (b.map itemTok).all plainChar = true := by
-  intro b
-  induction b with
-  | nil => intro _; exact ⟨rfl, rfl⟩
-  | cons it rest ih =>
-    intro h
-    simp only [List.all_cons, Bool.and_eq_true] at h
-    obtain ⟨e1, e2⟩ := ih h.2
-    cases it with
-    | tok t =>
-      have hp : plainChar t = true := by
-        cases t with
-        | ch cat c =>
-          have := h.1
-          unfold plainItem at this
-          split at this <;> simp_all [plainChar]
-        | cs n => simp [plainItem] at h
-        | el n => simp [plainItem] at h
-      refine ⟨?_, ?_⟩
-      · simp only [renderBody, List.flatMap_cons, renderItem, List.map_cons, itemTok] at e1 ⊢
-        rw [e1]; rfl
-      · simp [itemTok, hp, e2]
-    | par k => simp [plainItem] at h
-    | hash c => simp [plainItem] at h
-
-theorem itemTok_inj : ∀ (a b : List BItem), a.all plainItem = true → b.all plainItem = true →
-    a.map itemTok = b.map itemTok → a = b := by
-  intro a
-  induction a with
-  | nil => intro b _ _ h; cases b with | nil => rfl | cons y ys => simp at h
-  | cons x xs ih =>
-    intro b ha hb h
-    cases b with
-    | nil => simp at h
-    | cons y ys =>
-      simp only [List.all_cons, Bool.and_eq_true] at ha hb
-      simp only [List.map_cons, List.cons.injEq] at h
-      have hxy : x = y := by
-        cases x <;> cases y <;> simp_all [plainItem, itemTok]
-      rw [hxy, ih ys ha.2 hb.2 h.2]
-
-theorem ifValEq_ifValOf (a b : List Tok) : ifValEq (ifValOf a) (ifValOf b) = (a == b) := by
-  match a, b with
-  | [], [] => rfl
-  | [], [y] => rfl
-  | [], y :: z :: w => rfl
-  | [x], [] => rfl
-  | [x], [y] => simp [ifValOf, ifValEq]
-  | [x], y :: z :: w => simp [ifValOf, ifValEq]
-  | x :: x' :: xs, [] => rfl
-  | x :: x' :: xs, [y] => simp [ifValOf, ifValEq]
-  | x :: x' :: xs, y :: z :: w => simp [ifValOf, ifValEq]
-
-theorem ifxKind_mac (tbl : Table) (t : Tok) (body : List BItem) (h : ifxKind tbl t = some (.mac body)) :
-    ∃ n pt, t = .cs n ∧ tbl.lookup n = some (.macro pt body) ∧ pt.pre = [] ∧ pt.params = [] ∧ body.all plainItem = true := by
-  cases t with
-  | el n => simp [ifxKind] at h
-  | ch cat c => simp only [ifxKind] at h; split at h <;> simp at h
-  | cs n =>
-    simp only [ifxKind] at h
-    cases hl : List.lookup n tbl with
-    | none => simp [hl] at h
-    | some m =>
-      cases m with
-      | prim q => simp [hl] at h
-      | latex a b c => simp [hl] at h
-      | «macro» pt body' =>
-        simp only [hl] at h
-        cases hc : (pt.pre.isEmpty && pt.params.isEmpty && body'.all plainItem) with
-        | false => simp [hc] at h
-        | true =>
-          simp only [hc, if_true, Option.some.injEq, IfxKind.mac.injEq] at h
-          subst h
-          simp only [Bool.and_eq_true, List.isEmpty_iff] at hc
-          exact ⟨n, pt, rfl, hl, hc.1.1, hc.1.2, hc.2⟩
-
-theorem ifxKind_char (tbl : Table) (t : Tok) (cat c : Nat) (h : ifxKind tbl t = some (.char cat c)) :
-    t = .ch cat c ∧ (cat = 11 ∨ cat = 12) := by
-  cases t with
-  | el n => simp [ifxKind] at h
-  | ch a b =>
-    simp only [ifxKind] at h
-    by_cases hc : a = 11 ∨ a = 12
-    · simp only [hc, if_true, Option.some.injEq, IfxKind.char.injEq] at h
-      obtain ⟨rfl, rfl⟩ := h; exact ⟨rfl, hc⟩
-    · simp [hc] at h
-  | cs n =>
-    simp only [ifxKind] at h
-    split at h
-    · split at h <;> simp at h
-    · simp at h
-
-/-- one operand of `\ifx`, a character: the `XTok` reader of the code returns the token itself -/
-theorem xtok_of_char (env : Env) (tbl : Table) (t : Tok) (cat c : Nat) (h : ifxKind tbl t = some (.char cat c)) :
-    xtokOfTok env t = .ok (.tok (.ch cat c)) := by
-  obtain ⟨rfl, hc⟩ := ifxKind_char tbl t cat c h
-  simp [xtokOfTok, hc]
-
-/-- one operand of `\ifx`, a plain-text macro: the reader returns its text (one token, or the fragment of its tokens) -/
-theorem xtok_of_mac (fx : Bool) (env : Env) (tbl : Table) (hg : Good fx env tbl) (t : Tok) (body : List BItem)
-    (h : ifxKind tbl t = some (.mac body)) :
-    xtokOfTok env t = .ok (ifValOf (body.map itemTok)) := by
-  obtain ⟨n, pt, rfl, hl, hp1, hp2, hb⟩ := ifxKind_mac tbl t body h
-  have hnr := good_defined hg n _ hl
-  have hrn := hg.rel n hnr
-  rw [hl] at hrn
-  obtain ⟨hlm, _⟩ := mrel_macro hrn
-  obtain ⟨r1, r2⟩ := renderBody_plain body hb
-  have hpt : renderPText pt = [] := by simp [renderPText, hp1, hp2, renderParams]
-  simp [xtokOfTok, hlm, hpt, r1, r2]
-
-/-- **`\ifx` compares as TeX does (NF-prog 4).**  For two operands that TeX classifies as two character tokens or as two
-    macros without parameters and with plain-text replacement texts (`ifxKind`), the values the code's `XTok` reader
-    computes compare equal (`ifValEq`: tokens by category and character, fragments child by child AND by length) exactly
-    when TeX says the two tokens agree. -/
-theorem ifx_compare_is_tex (fx : Bool) (env : Env) (tbl : Table) (hg : Good fx env tbl) (t1 t2 : Tok) (k1 k2 : IfxKind) (b : Bool)
-    (h1 : ifxKind tbl t1 = some k1) (h2 : ifxKind tbl t2 = some k2) (hb : ifxAgree k1 k2 = some b) :
-    ∃ v1 v2, xtokOfTok env t1 = .ok v1 ∧ xtokOfTok env t2 = .ok v2 ∧ ifValEq v1 v2 = b := by
-  cases k1 with
-  | char a c =>
-    cases k2 with
-    | char a' c' =>
-      simp only [ifxAgree, Option.some.injEq] at hb
-      refine ⟨_, _, xtok_of_char env tbl t1 a c h1, xtok_of_char env tbl t2 a' c' h2, ?_⟩
-      subst hb
-      by_cases ha : a = a'
-      · by_cases hc : c = c'
-        · subst ha; subst hc; simp [ifValEq]
-        · simp [ifValEq, ha, hc]
-      · simp [ifValEq, ha]
-    | mac y => simp [ifxAgree] at hb
-  | mac x =>
-    cases k2 with
-    | char a' c' => simp [ifxAgree] at hb
-    | mac y =>
-      simp only [ifxAgree, Option.some.injEq] at hb
-      refine ⟨_, _, xtok_of_mac fx env tbl hg t1 x h1, xtok_of_mac fx env tbl hg t2 y h2, ?_⟩
-      rw [ifValEq_ifValOf]
-      subst hb
-      obtain ⟨_, _, _, _, _, _, hx⟩ := ifxKind_mac tbl t1 x h1
-      obtain ⟨_, _, _, _, _, _, hy⟩ := ifxKind_mac tbl t2 y h2
-      by_cases hxy : x = y
-      · subst hxy; simp
-      · have : x.map itemTok ≠ y.map itemTok := fun e => hxy (itemTok_inj x y hx hy e)
-        simp [hxy, this]
 
 end PlasVerif.Proofs.MacroRun
